@@ -111,7 +111,7 @@ class Client(threading.Thread):
             n = 0
             for op, idiom in self.ops:
                 n += 1
-                token = "c%d-%d-%s" % (self.cid, n, uuid.uuid4().hex[:6])
+                token = "c%d-%d-%s" % (self.cid, n, uuid.uuid4().hex)
                 if op == "propget_rais":
                     token += "!"
                 corr = uuid.uuid4()
